@@ -296,6 +296,7 @@ func register[T any](s spec[T]) {
 				if p.panicked == "" && p.err == nil {
 					if repr {
 						r.Line(bl, common.B(balancedToks(p.toks)))
+						c.skelLine(s.name+".TokenReader", p.toks)
 					}
 					if !balancedToks(p.toks) {
 						r.Fail("well-formed", s.name+"/TokenReader/unbalanced", append(lines, r.Prop+" "+bl), "token stream is not balanced\n"+describe())
